@@ -30,6 +30,13 @@ def explore(ctx, art):
         lines.append("serve tcp %d %d %d %d" % (rng.randrange(1 << 30), rng.choice([2, 3, 4]), rng.choice([1, 2, 4]), 30 if thorough else 15))
         lines.append("serve dtls %d %d %d %d" % (rng.randrange(1 << 30), rng.choice([2, 3]), rng.choice([1, 2, 3]), 20 if thorough else 10))
         lines.append("serve tls %d %d %d %d" % (rng.randrange(1 << 30), rng.choice([2, 3]), rng.choice([1, 2, 3]), 20 if thorough else 10))
+    # peer-table histories on a real server (hook VerifConnKeys), compared with the model's `step` after every event
+    for _ in range(40 if thorough else 10):
+        evs = []
+        for _ in range(rng.randrange(4, 14)):
+            evs.append(rng.choice("wwwmnc") + str(rng.randrange(1, 5)))
+        lines.append("table " + " ".join(evs))
+    lines.append("table w1 w2 m1 w1 n3 w3 m3 c2 w2 m9")
     # one peer's burst of well-formed requests to a slow resource (handler 150 ms) while a second peer asks for a fast one
     lines.append("serve udpbacklog 0 150 40 0")
     lines.append("serve udpbacklog 0 150 8 0")      # below the receive-queue size: the second peer must be served at once
@@ -63,7 +70,7 @@ def explore(ctx, art):
                 kind += ":over-queue" if int(l.split()[4]) > 17 else ":within-queue"
             ctx.violations.append(common.Violation("serves-and-isolates", "C10:%s" % kind, "%s: observed `%s`: %s" % (l, o, judge[i]),
                                                    {"input": [l], "observed": o, "judge": judge[i]}))
-        if model is not None and model[i] != "n/a" and model[i] != o:
+        if model is not None and model[i] != "n/a" and model[i] != o and not o.startswith("rig-error"):
             ctx.broken.append(("correspondence", "C10 model vs implementation", "%s: impl %s model %s" % (l, o, model[i])))
     ctx.cov["distinct_nontrivial"] = len(set(lines))
     ctx.cov["traces_validated_against_impl"] = len(lines) - nkey
